@@ -250,7 +250,7 @@ Section Day.
     change (d_th s') with (giR_th r_gi). change (d_surface_storage s') with (trR_surf r_tr).
     pose proof (C1 H0) as H1. pose proof (C2 H1) as H2. destruct (C3 H2 S0) as [H3 S3]. pose proof (C4 H3) as H4.
     destruct (C5 H4 S3) as [H5 S5]. destruct (C6 H5 S5) as [H6 S6]. pose proof (C7 H6) as H7.
-    repeat split; assumption.
+    repeat match goal with |- _ /\ _ => split end; assumption.
   Qed.
 End Day.
 
@@ -276,5 +276,289 @@ Corollary day_balance_all par P season gs dap tsc w s :
   + fl_GwIn f - fl_DeepPerc f - fl_Es f - fl_Tr f.
 Proof.
   intros prof H1 H2 H3 H4 H5 H6 H7 H8 H9. apply day_balance. constructor; auto.
-  - apply H4. - apply H5. - apply H6. - apply H7.
 Qed.
+
+(* ============================================================================================================ *)
+(*  the day inside Clock.v's [day_step]                                                                          *)
+(* ============================================================================================================ *)
+(* the summary row written by the clock on a harvest day carries exactly the yields of the crop-growth row written
+   the same day and the seasonal irrigation counter of the configured strategy after that day *)
+Theorem day_step_summary par P c w (st : St (DState R)) st1 t row r :
+  day_step' par P c w st = (st1, (t, row), Some r) ->
+  let gs := in_season (DState R) dead c st in
+  o_Dry (s_out r) = gr_Dry (r_growth row) /\ o_Fresh (s_out r) = gr_Fresh (r_growth row) /\ o_Pot (s_out r) = gr_Pot (r_growth row) /\
+  o_IrrTot (s_out r) = (if gs then (if (i_method (sel_irr par (season st)) =? 4)%Z then d_irr_net_cum (phys st1) else d_irr_cum (phys st1)) else 0) /\
+  s_season r = season st /\ s_step r = tsc st /\ s_date r = (tsc st + 1)%Z /\ t = tsc st /\ hflag st = false /\ hflag st1 = true.
+Proof.
+  unfold day_step', day_step. rewrite day_proc_out. cbv beta iota zeta.
+  match goal with |- context [if ?b then Some _ else None] => destruct b eqn:Eb end; [|discriminate].
+  intros E. inversion E; subst; clear E. cbn [s_out s_season s_step s_date phys hflag].
+  repeat split; try reflexivity.
+  apply andb_true_iff in Eb. destruct Eb as [_ Eb]. apply negb_true_iff in Eb. exact Eb.
+Qed.
+
+(* outside the growing season the clock hands dap = 0 to the day: every row has dap = 0 and no irrigation, no yield *)
+Theorem day_step_off_season par P c w (st : St (DState R)) :
+  in_season (DState R) dead c st = false ->
+  let '(st1, (_, row), _) := day_step' par P c w st in
+  Clock.dap st1 = 0%Z /\ fl_dap (r_flux row) = 0%Z /\ gr_dap (r_growth row) = 0%Z /\ st_dap (r_sto row) = 0%Z /\ st_gs (r_sto row) = false /\
+  fl_IrrDay (r_flux row) = 0 /\ gr_Dry (r_growth row) = 0 /\ gr_Fresh (r_growth row) = 0 /\ gr_gdd_cum (r_growth row) = 0 /\
+  d_gdd_cum (phys st1) = 0 /\ d_growing_season (phys st1) = false /\ mature st1 = mature st.
+Proof.
+  intros E. unfold day_step', day_step. rewrite day_proc_out. cbv beta iota zeta. rewrite E.
+  cbn [Clock.dap phys mature andb].
+  pose proof (off_season_wiring par P (season st) false 0 (tsc st) w (phys st) eq_refl) as H.
+  cbv zeta in H. decompose [and] H. clear H.
+  repeat split; try reflexivity; assumption.
+Qed.
+
+(* ============================================================================================================ *)
+(*  5. the season reset: frame                                                                                   *)
+(* ============================================================================================================ *)
+Definition field_eq (f : string) (a b : DState R) : Prop :=
+  if String.eqb f "age_days" then d_age_days a = d_age_days b else
+  if String.eqb f "age_days_ns" then d_age_days_ns a = d_age_days_ns b else
+  if String.eqb f "aer_days" then d_aer_days a = d_aer_days b else
+  if String.eqb f "aer_days_comp" then d_aer_days_comp a = d_aer_days_comp b else
+  if String.eqb f "irr_cum" then d_irr_cum a = d_irr_cum b else
+  if String.eqb f "delayed_gdds" then d_delayed_gdds a = d_delayed_gdds b else
+  if String.eqb f "delayed_cds" then d_delayed_cds a = d_delayed_cds b else
+  if String.eqb f "pct_lag_phase" then d_pct_lag_phase a = d_pct_lag_phase b else
+  if String.eqb f "t_early_sen" then d_t_early_sen a = d_t_early_sen b else
+  if String.eqb f "gdd_cum" then d_gdd_cum a = d_gdd_cum b else
+  if String.eqb f "day_submerged" then d_day_submerged a = d_day_submerged b else
+  if String.eqb f "irr_net_cum" then d_irr_net_cum a = d_irr_net_cum b else
+  if String.eqb f "e_pot" then d_e_pot a = d_e_pot b else
+  if String.eqb f "t_pot" then d_t_pot a = d_t_pot b else
+  if String.eqb f "pre_adj" then d_pre_adj a = d_pre_adj b else
+  if String.eqb f "crop_dead" then d_crop_dead a = d_crop_dead b else
+  if String.eqb f "germination" then d_germination a = d_germination b else
+  if String.eqb f "premat_senes" then d_premat_senes a = d_premat_senes b else
+  if String.eqb f "growing_season" then d_growing_season a = d_growing_season b else
+  if String.eqb f "yield_form" then d_yield_form a = d_yield_form b else
+  if String.eqb f "stage2" then d_stage2 a = d_stage2 b else
+  if String.eqb f "wt_in_soil" then d_wt_in_soil a = d_wt_in_soil b else
+  if String.eqb f "stage" then d_stage a = d_stage b else
+  if String.eqb f "f_pre" then d_f_pre a = d_f_pre b else
+  if String.eqb f "f_post" then d_f_post a = d_f_post b else
+  if String.eqb f "fpost_dwn" then d_fpost_dwn a = d_fpost_dwn b else
+  if String.eqb f "fpost_upp" then d_fpost_upp a = d_fpost_upp b else
+  if String.eqb f "h1_cor_asum" then d_h1_cor_asum a = d_h1_cor_asum b else
+  if String.eqb f "h1_cor_bsum" then d_h1_cor_bsum a = d_h1_cor_bsum b else
+  if String.eqb f "f_pol" then d_f_pol a = d_f_pol b else
+  if String.eqb f "s_cor1" then d_s_cor1 a = d_s_cor1 b else
+  if String.eqb f "s_cor2" then d_s_cor2 a = d_s_cor2 b else
+  if String.eqb f "hi_ref" then d_hi_ref a = d_hi_ref b else
+  if String.eqb f "HIfinal" then d_HIfinal a = d_HIfinal b else
+  if String.eqb f "growth_stage" then d_growth_stage a = d_growth_stage b else
+  if String.eqb f "tr_ratio" then d_tr_ratio a = d_tr_ratio b else
+  if String.eqb f "r_cor" then d_r_cor a = d_r_cor b else
+  if String.eqb f "canopy_cover" then d_canopy_cover a = d_canopy_cover b else
+  if String.eqb f "canopy_cover_adj" then d_canopy_cover_adj a = d_canopy_cover_adj b else
+  if String.eqb f "canopy_cover_ns" then d_canopy_cover_ns a = d_canopy_cover_ns b else
+  if String.eqb f "canopy_cover_adj_ns" then d_canopy_cover_adj_ns a = d_canopy_cover_adj_ns b else
+  if String.eqb f "biomass" then d_biomass a = d_biomass b else
+  if String.eqb f "biomass_ns" then d_biomass_ns a = d_biomass_ns b else
+  if String.eqb f "YieldPot" then d_YieldPot a = d_YieldPot b else
+  if String.eqb f "harvest_index" then d_harvest_index a = d_harvest_index b else
+  if String.eqb f "harvest_index_adj" then d_harvest_index_adj a = d_harvest_index_adj b else
+  if String.eqb f "ccx_act" then d_ccx_act a = d_ccx_act b else
+  if String.eqb f "ccx_act_ns" then d_ccx_act_ns a = d_ccx_act_ns b else
+  if String.eqb f "ccx_w" then d_ccx_w a = d_ccx_w b else
+  if String.eqb f "ccx_w_ns" then d_ccx_w_ns a = d_ccx_w_ns b else
+  if String.eqb f "ccx_early_sen" then d_ccx_early_sen a = d_ccx_early_sen b else
+  if String.eqb f "cc_prev" then d_cc_prev a = d_cc_prev b else
+  if String.eqb f "protected_seed" then d_protected_seed a = d_protected_seed b else
+  if String.eqb f "DryYield" then d_DryYield a = d_DryYield b else
+  if String.eqb f "FreshYield" then d_FreshYield a = d_FreshYield b else
+  if String.eqb f "z_root" then d_z_root a = d_z_root b else
+  if String.eqb f "cc0_adj" then d_cc0_adj a = d_cc0_adj b else
+  if String.eqb f "surface_storage" then d_surface_storage a = d_surface_storage b else
+  if String.eqb f "z_gw" then d_z_gw a = d_z_gw b else
+  if String.eqb f "th_fc_Adj" then d_th_fc_Adj a = d_th_fc_Adj b else
+  if String.eqb f "th" then d_th a = d_th b else
+  if String.eqb f "thini" then d_thini a = d_thini b else
+  if String.eqb f "time_step_counter" then d_time_step_counter a = d_time_step_counter b else
+  if String.eqb f "precipitation" then d_precipitation a = d_precipitation b else
+  if String.eqb f "temp_max" then d_temp_max a = d_temp_max b else
+  if String.eqb f "temp_min" then d_temp_min a = d_temp_min b else
+  if String.eqb f "et0" then d_et0 a = d_et0 b else
+  if String.eqb f "sumET0EarlySen" then d_sumET0EarlySen a = d_sumET0EarlySen b else
+  if String.eqb f "gdd" then d_gdd a = d_gdd b else
+  if String.eqb f "w_surf" then d_w_surf a = d_w_surf b else
+  if String.eqb f "evap_z" then d_evap_z a = d_evap_z b else
+  if String.eqb f "w_stage_2" then d_w_stage_2 a = d_w_stage_2 b else
+  if String.eqb f "depletion" then d_depletion a = d_depletion b else
+  if String.eqb f "taw" then d_taw a = d_taw b else
+  True.
+
+(* the fields assigned by the model's [reset] (source order of reset_initial_conditions.py); dap, crop_mature and
+   harvest_flag are the clock fields, reset by Clock.start_season *)
+Definition reset_list : list string :=
+  [ "age_days"; "age_days_ns"; "aer_days"; "irr_cum"; "delayed_gdds"; "delayed_cds"; "pct_lag_phase"; "t_early_sen"; "gdd_cum";
+    "day_submerged"; "irr_net_cum"; "dap"; "aer_days_comp"; "pre_adj"; "crop_mature"; "crop_dead"; "germination"; "premat_senes";
+    "harvest_flag"; "stage"; "f_pre"; "f_post"; "fpost_dwn"; "fpost_upp"; "h1_cor_asum"; "h1_cor_bsum"; "f_pol"; "s_cor1"; "s_cor2";
+    "growth_stage"; "tr_ratio"; "r_cor"; "canopy_cover"; "canopy_cover_adj"; "canopy_cover_ns"; "canopy_cover_adj_ns"; "biomass";
+    "biomass_ns"; "harvest_index"; "harvest_index_adj"; "ccx_act"; "ccx_act_ns"; "ccx_w"; "ccx_w_ns"; "ccx_early_sen"; "cc_prev";
+    "cc0_adj"; "protected_seed"; "sumET0EarlySen"; "HIfinal"; "DryYield"; "FreshYield"; "th"; "e_pot"; "t_pot"; "surface_storage" ]%string.
+
+Theorem reset_fields_match : reset_list = reset_fields.
+Proof. vm_compute. reflexivity. Qed.
+
+Local Ltac in_cases H := repeat (destruct H as [<- | H]; [try reflexivity|]); try destruct H.
+
+(* every state field that is not in the list is left unchanged by [reset] *)
+Theorem reset_frame par k ws (s : DState R) :
+  forall f, In f state_fields -> ~ In f reset_fields -> field_eq f (reset par k ws s) s.
+Proof.
+  intros f Hf Hn. assert (H : In f carried_fields) by (apply carried_fields_spec; split; assumption).
+  clear Hf Hn. vm_compute in H. in_cases H.
+Qed.
+
+(* ... and when the off-season is simulated also th, e_pot, t_pot and the ponding depth *)
+Theorem reset_frame_off_season par k ws (s : DState R) : p_sim_off par = true ->
+  let s1 := reset par k ws s in
+  d_th s1 = d_th s /\ d_e_pot s1 = d_e_pot s /\ d_t_pot s1 = d_t_pot s /\ d_surface_storage s1 = d_surface_storage s.
+Proof. intros E. cbn [reset d_th d_e_pot d_t_pot d_surface_storage]. rewrite E. repeat split; reflexivity. Qed.
+
+(* when the off-season is skipped the water content restarts from the stored initial content *)
+Theorem reset_restores_water par k ws (s : DState R) : p_sim_off par = false ->
+  let s1 := reset par k ws s in
+  d_th s1 = d_thini s /\ d_thini s1 = d_thini s /\ d_e_pot s1 = 0 /\ d_t_pot s1 = 0.
+Proof. intros E. cbn [reset d_th d_e_pot d_t_pot d_thini]. rewrite E. repeat split; reflexivity. Qed.
+
+(* the clock part of the reset *)
+Theorem start_season_clock par k ws (st : St (DState R)) t :
+  let st1 := start_season' par k ws st t in
+  Clock.dap st1 = 0%Z /\ mature st1 = false /\ hflag st1 = false /\ season st1 = k /\ tsc st1 = t /\ phys st1 = reset par k ws (phys st).
+Proof. repeat split; reflexivity. Qed.
+
+(* ============================================================================================================ *)
+(*  6. C08: fields that are dead at a season start                                                               *)
+(* ============================================================================================================ *)
+(* [proj] overwrites with fixed values the fields that survive the reset (GenFactsOK.carried_ok) and are claimed dead
+   on the first day of a season.  Two carried fields are NOT blanked because they are live: [thini] (the source of the
+   reset of th) and [th_fc_Adj] (without a water table check_groundwater_table returns it unchanged; it is a run
+   constant then, see GenFactsOK). *)
+Definition proj (s : DState R) : DState R :=
+  {| d_age_days := d_age_days s; d_age_days_ns := d_age_days_ns s; d_aer_days := d_aer_days s; d_aer_days_comp := d_aer_days_comp s;
+     d_irr_cum := d_irr_cum s; d_delayed_gdds := d_delayed_gdds s; d_delayed_cds := d_delayed_cds s; d_pct_lag_phase := d_pct_lag_phase s;
+     d_t_early_sen := d_t_early_sen s; d_gdd_cum := d_gdd_cum s; d_day_submerged := d_day_submerged s; d_irr_net_cum := d_irr_net_cum s;
+     d_e_pot := d_e_pot s; d_t_pot := d_t_pot s; d_pre_adj := d_pre_adj s; d_crop_dead := d_crop_dead s; d_germination := d_germination s;
+     d_premat_senes := d_premat_senes s;
+     d_growing_season := false; d_yield_form := false; d_stage2 := false; d_wt_in_soil := None;
+     d_stage := d_stage s; d_f_pre := d_f_pre s; d_f_post := d_f_post s; d_fpost_dwn := d_fpost_dwn s; d_fpost_upp := d_fpost_upp s;
+     d_h1_cor_asum := d_h1_cor_asum s; d_h1_cor_bsum := d_h1_cor_bsum s; d_f_pol := d_f_pol s; d_s_cor1 := d_s_cor1 s; d_s_cor2 := d_s_cor2 s;
+     d_hi_ref := 0; d_HIfinal := d_HIfinal s; d_growth_stage := d_growth_stage s; d_tr_ratio := d_tr_ratio s; d_r_cor := d_r_cor s;
+     d_canopy_cover := d_canopy_cover s; d_canopy_cover_adj := d_canopy_cover_adj s; d_canopy_cover_ns := d_canopy_cover_ns s;
+     d_canopy_cover_adj_ns := d_canopy_cover_adj_ns s; d_biomass := d_biomass s; d_biomass_ns := d_biomass_ns s; d_YieldPot := 0;
+     d_harvest_index := d_harvest_index s; d_harvest_index_adj := d_harvest_index_adj s; d_ccx_act := d_ccx_act s;
+     d_ccx_act_ns := d_ccx_act_ns s; d_ccx_w := d_ccx_w s; d_ccx_w_ns := d_ccx_w_ns s; d_ccx_early_sen := d_ccx_early_sen s;
+     d_cc_prev := d_cc_prev s; d_protected_seed := d_protected_seed s; d_DryYield := d_DryYield s; d_FreshYield := d_FreshYield s;
+     d_z_root := 0; d_cc0_adj := d_cc0_adj s; d_surface_storage := d_surface_storage s; d_z_gw := None;
+     d_th_fc_Adj := d_th_fc_Adj s; d_th := d_th s; d_thini := d_thini s;
+     d_time_step_counter := 0%Z; d_precipitation := 0; d_temp_max := 0; d_temp_min := 0; d_et0 := 0;
+     d_sumET0EarlySen := d_sumET0EarlySen s; d_gdd := 0; d_w_surf := 0; d_evap_z := 0; d_w_stage_2 := 0; d_depletion := 0; d_taw := 0 |}.
+
+(* the blanked fields are exactly the carried fields other than thini and th_fc_Adj: on every other field proj is the identity *)
+Definition proj_list : list string :=
+  [ "growing_season"; "yield_form"; "stage2"; "w_surf"; "evap_z"; "w_stage_2"; "wt_in_soil"; "z_gw"; "hi_ref"; "YieldPot"; "z_root";
+    "time_step_counter"; "precipitation"; "temp_max"; "temp_min"; "et0"; "gdd"; "depletion"; "taw" ]%string.
+Theorem proj_list_carried : forall f, In f proj_list -> In f carried_ok /\ ~ In f reset_fields.
+Proof.
+  intros f H. split.
+  - revert f H. apply subsetb_incl. vm_compute. reflexivity.
+  - apply mem_not_In. revert f H. apply (proj1 (Forall_forall _ _)). vm_compute. repeat constructor.
+Qed.
+Theorem carried_ok_proj_or_live : forall f, In f carried_ok -> In f proj_list \/ f = "thini"%string \/ f = "th_fc_Adj"%string.
+Proof. intros f H. vm_compute in H. repeat (destruct H as [<- | H]; [vm_compute; tauto|]). destruct H. Qed.
+Theorem proj_frame (s : DState R) : forall f, In f state_fields -> ~ In f proj_list -> field_eq f (proj s) s.
+Proof.
+  intros f Hf Hn.
+  assert (H : In f (filter (fun f => negb (mem f proj_list)) state_fields))
+    by (apply filter_In; split; [assumption | apply negb_true_iff, mem_not_In; assumption]).
+  clear Hf Hn. vm_compute in H. in_cases H.
+Qed.
+
+(* record updates used to state that a process ignores some of its arguments *)
+Definition gw_with (a : A_gw R) (z : option R) : A_gw R :=
+  {| gwA_zgw := z; gwA_th := gwA_th a; gwA_fcadj := gwA_fcadj a; gwA_wt := gwA_wt a; gwA_gw := gwA_gw a |}.
+Definition rd_with (a : A_rd R) (z : R) : A_rd R :=
+  {| rdA_crop := rdA_crop a; rdA_dap := rdA_dap a; rdA_zroot := z; rdA_dcd := rdA_dcd a; rdA_gddcum := rdA_gddcum a; rdA_dgdd := rdA_dgdd a;
+     rdA_trratio := rdA_trratio a; rdA_th := rdA_th a; rdA_cc := rdA_cc a; rdA_ccns := rdA_ccns a; rdA_germ := rdA_germ a;
+     rdA_rcor := rdA_rcor a; rdA_tpot := rdA_tpot a; rdA_zgw := rdA_zgw a; rdA_gdd := rdA_gdd a; rdA_gs := rdA_gs a; rdA_wt := rdA_wt a |}.
+Definition ev_with (a : A_ev R) (wsurf evapz : R) (stage2 : bool) (wstage2 : R) : A_ev R :=
+  {| evA_steps := evA_steps a; evA_simoff := evA_simoff a; evA_tsc := evA_tsc a; evA_zmin := evA_zmin a; evA_zmax := evA_zmax a;
+     evA_rew := evA_rew a; evA_kex := evA_kex a; evA_fwcc := evA_fwcc a; evA_fwrelexp := evA_fwrelexp a; evA_fevap := evA_fevap a;
+     evA_caltype := evA_caltype a; evA_senescence := evA_senescence a; evA_method := evA_method a; evA_wetsurf := evA_wetsurf a;
+     evA_mulches := evA_mulches a; evA_fmulch := evA_fmulch a; evA_mulchpct := evA_mulchpct a; evA_dap := evA_dap a;
+     evA_wsurf := wsurf; evA_evapz := evapz; evA_stage2 := stage2; evA_th := evA_th a; evA_dcd := evA_dcd a; evA_gddcum := evA_gddcum a;
+     evA_dgdd := evA_dgdd a; evA_ccxw := evA_ccxw a; evA_ccadj := evA_ccadj a; evA_ccxact := evA_ccxact a; evA_cc := evA_cc a;
+     evA_premat := evA_premat a; evA_surf := evA_surf a; evA_wstage2 := wstage2; evA_epot := evA_epot a; evA_et0 := evA_et0 a;
+     evA_infl := evA_infl a; evA_rain := evA_rain a; evA_irr := evA_irr a; evA_gs := evA_gs a |}.
+Definition hr_with (a : A_hr R) (hiref : R) (yf : bool) : A_hr R :=
+  {| hrA_hiref := hiref; hrA_hifinal := hrA_hifinal a; hrA_dap := hrA_dap a; hrA_dcd := hrA_dcd a; hrA_yf := yf; hrA_pct := hrA_pct a;
+     hrA_cc := hrA_cc a; hrA_ccprev := hrA_ccprev a; hrA_ccxw := hrA_ccxw a; hrA_crop := hrA_crop a; hrA_gs := hrA_gs a |}.
+
+Section Day1.
+  Variables (par : DPar R) (P : Procs R).
+  Let prof := so_prof (p_soil par).
+  (* hypotheses about individual processes (each is a statement a process unit can discharge from its model):
+     check_groundwater_table does not use the previous groundwater depth it is handed *)
+  Hypothesis check_gw_ignores_depth : forall a z, p_gw P prof (gw_with a z) = p_gw P prof a.
+  (* root_development starts from Crop.Zmin on the first day after planting (RootsR.root_first_day) *)
+  Hypothesis root_first_day : forall a z, rdA_dap a = 1%Z -> rdA_gs a = true -> p_rd P prof (rd_with a z) = p_rd P prof a.
+  (* soil_evaporation re-initialises w_surf, evap_z, stage2, w_stage_2 when dap = 1 and the off-season is skipped *)
+  Hypothesis evaporation_first_day : forall a ws ez s2 w2, evA_dap a = 1%Z -> evA_simoff a = false ->
+    p_ev P prof (ev_with a ws ez s2 w2) = p_ev P prof a.
+  (* HIref_current_day: HIt = dap - delayed_cds - HIstartCD - 1 <= 0 on the first day, so hi_ref := 0, and yield_form is
+     assigned on every in-season path *)
+  Hypothesis hiref_first_day : forall a h y, hrA_dap a = 1%Z -> hrA_gs a = true -> (0 <= hrA_dcd a)%Z ->
+    p_hr P (hr_with a h y) = p_hr P a.
+
+  Theorem day1_dead season tsc w (s : DState R) :
+    p_sim_off par = false ->
+    (0 <= geR_dcd (rs_ge (results (ctx par season true 1 tsc w s) P)))%Z ->   (* germination returns a non-negative day count *)
+    day_proc par P season true 1 tsc w (proj s) = day_proc par P season true 1 tsc w s.
+  Proof.
+    intros Eoff Hdcd. rewrite !day_proc_out.
+    set (x := ctx par season true 1 tsc w s). set (x' := ctx par season true 1 tsc w (proj s)).
+    pose proof (results_spec x P) as Sp. pose proof (results_spec x' P) as Sp'.
+    fold x in Hdcd.
+    set (Rs := results x P) in *. set (Rs' := results x' P) in *. clearbody Rs Rs'.
+    destruct Sp as [S0 S1 S2 S3 S4 S5 S6 S7 S8 S9 S10 S11 S12 S13 S14 S15 S16 S17 S18].
+    destruct Sp' as [T0 T1 T2 T3 T4 T5 T6 T7 T8 T9 T10 T11 T12 T13 T14 T15 T16 T17 T18].
+    assert (E0 : rs_gdd Rs' = rs_gdd Rs) by (rewrite S0, T0; reflexivity).
+    assert (E1 : rs_gw Rs' = rs_gw Rs).
+    { rewrite S1, T1. change (t_gw (trace_of x' Rs')) with (gw_with (t_gw (trace_of x Rs)) None). apply check_gw_ignores_depth. }
+    assert (E2 : rs_rd Rs' = rs_rd Rs).
+    { rewrite S2, T2. cbn [t_rd trace_of]. rewrite E0, E1.
+      change (arg_rd x' (rs_gdd Rs) (rs_gw Rs)) with (rd_with (arg_rd x (rs_gdd Rs) (rs_gw Rs)) 0). apply root_first_day; reflexivity. }
+    assert (E3 : rs_pi Rs' = rs_pi Rs) by (rewrite S3, T3; cbn [t_pi trace_of]; rewrite E2; reflexivity).
+    assert (E4 : rs_dr Rs' = rs_dr Rs) by (rewrite S4, T4; cbn [t_dr trace_of]; rewrite E1, E3; reflexivity).
+    assert (E5 : rs_rp Rs' = rs_rp Rs) by (rewrite S5, T5; cbn [t_rp trace_of]; rewrite E4; reflexivity).
+    assert (E6 : rs_ir Rs' = rs_ir Rs) by (rewrite S6, T6; cbn [t_ir trace_of]; rewrite E2, E4, E5; reflexivity).
+    assert (E7 : rs_inf Rs' = rs_inf Rs) by (rewrite S7, T7; cbn [t_inf trace_of]; rewrite E1, E4, E5, E6; reflexivity).
+    assert (E8 : rs_cr Rs' = rs_cr Rs) by (rewrite S8, T8; cbn [t_cr trace_of]; rewrite E1, E7; reflexivity).
+    assert (E9 : rs_ge Rs' = rs_ge Rs) by (rewrite S9, T9; cbn [t_ge trace_of]; rewrite E0, E8; reflexivity).
+    assert (E10 : rs_gst Rs' = rs_gst Rs) by (rewrite S10, T10; cbn [t_gst trace_of]; rewrite E0, E9; reflexivity).
+    assert (E11 : rs_cc Rs' = rs_cc Rs) by (rewrite S11, T11; cbn [t_cc trace_of]; rewrite E0, E2, E8, E9; reflexivity).
+    assert (E12 : rs_ev Rs' = rs_ev Rs).
+    { rewrite S12, T12. cbn [t_ev trace_of]. rewrite E0, E6, E7, E8, E9, E11.
+      change (arg_ev x' (rs_gdd Rs) (rs_ir Rs) (rs_inf Rs) (rs_cr Rs) (rs_ge Rs) (rs_cc Rs))
+        with (ev_with (arg_ev x (rs_gdd Rs) (rs_ir Rs) (rs_inf Rs) (rs_cr Rs) (rs_ge Rs) (rs_cc Rs)) 0 0 false 0).
+      apply evaporation_first_day; [reflexivity | exact Eoff]. }
+    assert (E13 : rs_tr Rs' = rs_tr Rs) by (rewrite S13, T13; cbn [t_tr trace_of]; rewrite E0, E2, E5, E6, E9, E11, E12; reflexivity).
+    assert (E14 : rs_gi Rs' = rs_gi Rs) by (rewrite S14, T14; cbn [t_gi trace_of]; rewrite E1, E13; reflexivity).
+    assert (E15 : rs_hr Rs' = rs_hr Rs).
+    { rewrite S15, T15. cbn [t_hr trace_of]. rewrite E9, E11, E13.
+      change (arg_hr x' (rs_ge Rs) (rs_cc Rs) (rs_tr Rs)) with (hr_with (arg_hr x (rs_ge Rs) (rs_cc Rs) (rs_tr Rs)) 0 false).
+      apply hiref_first_day; [reflexivity | reflexivity | exact Hdcd]. }
+    assert (E16 : rs_bm Rs' = rs_bm Rs) by (rewrite S16, T16; cbn [t_bm trace_of]; rewrite E9, E13, E15; reflexivity).
+    assert (E17 : rs_hi Rs' = rs_hi Rs) by (rewrite S17, T17; cbn [t_hi trace_of]; rewrite E2, E9, E11, E13, E14, E15, E16; reflexivity).
+    assert (E18 : rs_rz Rs' = rs_rz Rs) by (rewrite S18, T18; cbn [t_rz trace_of]; rewrite E2, E14; reflexivity).
+    assert (ER : Rs' = Rs).
+    { clear - E0 E1 E2 E3 E4 E5 E6 E7 E8 E9 E10 E11 E12 E13 E14 E15 E16 E17 E18. destruct Rs, Rs'. cbn in *. subst. reflexivity. }
+    rewrite ER. reflexivity.
+  Qed.
+End Day1.
